@@ -227,18 +227,18 @@ class CustomStrikethrough(gfm_elements.Strikethrough):
 
 class CustomFootnoteDef(footnote.FootnoteDef):
     """
-    Fixed FootnoteDef for a tab after the colon (`[^a]:<TAB>text`).
+    Fixed FootnoteDef for a tab before or after the label (`[^a]:<TAB>text`, `><TAB>[^a]: text`).
 
     Marko keeps the matched first-line prefix literally (tab included) and later matches it
     against tab-expanded text, where it never matches: no element consumes the line and the
-    parser loops forever. Any run of blanks after the colon is accepted instead.
+    parser loops forever. Any run of blanks around the label is accepted instead.
     """
 
     def __init__(self, match: re.Match[str]) -> None:
         super().__init__(match)
-        label_part = re.match(r" {,3}\[\^[^\]]+\]:", match.group())
+        label_part = re.search(r"\[\^[^\]]+\]:", match.group())
         if label_part:
-            self._prefix: str = re.escape(label_part.group()) + r"[^\n\S]*"
+            self._prefix: str = r"[^\n\S]*" + re.escape(label_part.group()) + r"[^\n\S]*"
 
     @override
     @classmethod
